@@ -91,7 +91,7 @@ Definition all_eqb (m o : list obs) : bool := list_eqb obs_eqb m o.
 Definition guards (i : input) : list bool :=
   match i_spec i with
   | SRaw => [true; true; true]
-  | SSse _ _ bs => [guard_F18a bs; guard_F18b bs; guard_dom bs]
+  | SSse _ _ bs => [guard_F18a bs; true; guard_dom bs]
   | SNd _ _ ls => [guard_nd_F18a ls; true; forallb no_crlf ls]
   end.
 
@@ -109,7 +109,7 @@ Definition diag (c : input * list obs) : N :=
                  negb (Nat.eqb (length m) (length (snd c)))]) 256.
 
 (* bit0: model <> implementation (any chunking, any observable, or the spec/stream sanity checks);
-   bit1: guard_F18a false; bit2: guard_F18b false; bit3: outside the encoding's domain;
+   bit1: guard_F18a false; bit2: unused (was guard_F18b, fixed); bit3: outside the encoding's domain;
    bits 8..: diagnostics — 8 bad-flag, 9 bytes, 10 texts, 11 lines, 12 sse, 13 events_text, 14 ndjson,
    15 harness encoder <> Streaming.encode, 16 chunkings of different streams, 17 arity *)
 Definition run (cases : list (input * list obs)) : list N :=
